@@ -35,7 +35,7 @@ def gen_cfg(locals_, doms, envlocals=(), rulevars=("lower",), envvars=ALL_VARS, 
             codes=(550,), maxsrc=1, maxdst=1, maxdepth=0, maxmod=0, maxblocks=4, maxrules=1,
             maxkeys=1, maxentries=1, maxvals=1, maxdefects=0, defectodds=0, salts=(0,),
             defaultlast=True, expected=False, baremaps=True, maxscopemods=1, tablekinds=("static",),
-            sendercap=99, tail=""):
+            sendercap=99, nullkeys=False, duprules=False, flatonly=False, tail=""):
     return """SPECIFICATION GSpec
 CONSTANTS
   Locals = %s
@@ -59,6 +59,9 @@ CONSTANTS
   Salts = %s
   DefaultLast = %s
   BareMaps = %s
+  NullKeys = %s
+  DupRules = %s
+  FlatOnly = %s
   MaxScopeMods = %d
   TableKinds = %s
   SenderCap = %d
@@ -67,7 +70,9 @@ CHECK_DEADLOCK FALSE
 %s""" % (tla_set(locals_), tla_set(doms), tla_set(envlocals), tla_set(rulevars), tla_set(envvars),
          tla_set(targets), tla_set(codes, False), maxsrc, maxdst, maxdepth, maxmod, maxblocks,
          maxrules, maxkeys, maxentries, maxvals, maxdefects, defectodds, tla_set(salts, False),
-         "TRUE" if defaultlast else "FALSE", "TRUE" if baremaps else "FALSE", maxscopemods,
+         "TRUE" if defaultlast else "FALSE", "TRUE" if baremaps else "FALSE",
+         "TRUE" if nullkeys else "FALSE", "TRUE" if duprules else "FALSE", "TRUE" if flatonly else "FALSE",
+         maxscopemods,
          tla_set(tablekinds), sendercap, "TRUE" if expected else "FALSE", tail)
 
 
@@ -75,14 +80,20 @@ CHECK_DEADLOCK FALSE
 # exhaustive, quick: one source-family block + default, one destination-family block + default
 NO_UPPER_ACE = ["lower", "upper", "nfc", "nfd", "alabel"]
 ALL_TABLES = ["static", "file", "regexp", "regexp_repl", "scripted"]
+# catch-all tables (no key list, answer for every key incl. the empty key of the null sender)
+CATCH_ALL = ["identity", "regexp_all"]
+# concrete alphabets of harness/routingcheck/alphabet.go (harness-only data dimension: the model speaks about
+# l1, d1, ... and is independent of the letters behind them); rows are spread over them
+N_ALPHABETS = 4
 # exhaustive: precedence - one source-family + one destination-family block per level; the domain (d3) has an
 # ordinary ASCII label in front of the internationalised one; tables are static or regexp match checks
 MC_QUICK = dict(locals_=["l1"], doms=["d3"], envlocals=["l2"], maxsrc=1, maxdst=1, maxblocks=4,
                 tablekinds=["static", "regexp"], envvars=NO_UPPER_ACE)
 # exhaustive: every table module (static, file, regexp with/without replacement, a scripted table whose
 # lookup of one listed key fails) with 1-2 keys, as the one source_in or the one destination_in block
+# a source_in table may list the null reverse-path; catch-all tables (identity, regexp ".*")
 MC_TABLES = dict(locals_=["l1", "l2"], doms=["d1"], maxsrc=1, maxdst=1, maxblocks=1, maxkeys=2,
-                 tablekinds=ALL_TABLES, envvars=NO_UPPER_ACE)
+                 tablekinds=ALL_TABLES + CATCH_ALL, nullkeys=True, envvars=NO_UPPER_ACE)
 # exhaustive: incomplete configurations - two destination-family blocks (destination + destination_in),
 # one defect: default block missing / block without decision / handling directive next to blocks /
 # reject + deliver_to
@@ -100,7 +111,15 @@ MC_NESTED_RW = dict(locals_=["l1", "l2", "l3"], doms=["d1"], codes=[], maxsrc=0,
 # 1-to-1 maps over two addresses
 MC_SCOPE_MODS = dict(locals_=["l1", "l2"], doms=["d1"], codes=[], maxsrc=0, maxdst=0, maxmod=2, maxvals=1,
                      maxblocks=0, baremaps=False, maxscopemods=2, sendercap=2, envvars=NO_UPPER_ACE)
-MC_QUICK_ALL = [MC_QUICK, MC_DEFECT, MC_REWRITE, MC_NESTED_RW, MC_TABLES, MC_SCOPE_MODS]
+# exhaustive: rule LISTS - two source-family blocks + default, directives with 1-2 rules (full address / domain),
+# a rule may repeat a rule of the same or of an earlier directive in any position; source_in tables (also with
+# the null reverse-path as key) compete with them; the blocks decide directly (flat bodies)
+MC_RULES_S = dict(locals_=["l1"], doms=["d1"], envlocals=["l2"], maxsrc=2, maxdst=0, maxrules=2, maxblocks=2,
+                  duprules=True, flatonly=True, nullkeys=True, envvars=NO_UPPER_ACE)
+# ... and the same for two destination-family blocks + default of one (implied) source block
+MC_RULES_D = dict(locals_=["l1"], doms=["d1"], envlocals=["l2"], maxsrc=0, maxdst=2, maxrules=2, maxblocks=2,
+                  duprules=True, flatonly=True, sendercap=2, envvars=NO_UPPER_ACE)
+MC_QUICK_ALL = [MC_QUICK, MC_DEFECT, MC_REWRITE, MC_NESTED_RW, MC_TABLES, MC_SCOPE_MODS, MC_RULES_S, MC_RULES_D]
 # exhaustive, thorough: additionally two local parts and two spellings in the rules; two domains; the
 # quick bound with one defect; incomplete configurations inside a reroute
 MC_THOROUGH = MC_QUICK_ALL + [
@@ -111,6 +130,12 @@ MC_THOROUGH = MC_QUICK_ALL + [
     dict(MC_QUICK, maxdefects=1),
     dict(locals_=["l1"], doms=["d1"], maxsrc=0, maxdst=2, maxblocks=3, maxdepth=1, maxdefects=1,
          sendercap=2, envvars=NO_UPPER_ACE),
+    # rule lists written in two spellings
+    dict(MC_RULES_S, rulevars=["lower", "upper"]),
+    dict(MC_RULES_D, rulevars=["lower", "upper"]),
+    # the default block declared before / between the rule blocks
+    dict(MC_RULES_S, defaultlast=False),
+    dict(MC_RULES_D, defaultlast=False),
 ]
 # as-is (deviations must be visible to the model)
 MC_ASIS = dict(locals_=["l1"], doms=["d1"], envlocals=["l2"], rulevars=["lower", "ALABEL"],
@@ -119,7 +144,8 @@ MC_ASIS = dict(locals_=["l1"], doms=["d1"], envlocals=["l2"], rulevars=["lower",
 SIM = dict(locals_=["l1", "l2"], doms=["d1", "d2"], rulevars=ALL_VARS, targets=["T1", "T2", "T3"],
            codes=[0, 550, 451], maxsrc=2, maxdst=2, maxdepth=2, maxmod=3, maxblocks=8, maxrules=2,
            maxkeys=2, maxentries=2, maxvals=2, maxdefects=1, defectodds=3, salts=[0, 1, 2, 3, 4, 5],
-           defaultlast=False, expected=True, maxscopemods=2, tablekinds=ALL_TABLES)
+           defaultlast=False, expected=True, maxscopemods=2, tablekinds=ALL_TABLES + CATCH_ALL,
+           nullkeys=True, duprules=True)
 SIM_DOMS = [["d1", "d2"], ["d2", "d3"], ["d1", "d3"]]
 
 TRACE_CFG = """SPECIFICATION TSpec
@@ -145,6 +171,9 @@ CONSTANTS
   Salts = {0}
   DefaultLast = TRUE
   BareMaps = TRUE
+  NullKeys = FALSE
+  DupRules = FALSE
+  FlatOnly = FALSE
   MaxScopeMods = 1
   TableKinds = {"static"}
   SenderCap = 99
@@ -212,6 +241,7 @@ def run(ctx, replay):
     if replay:
         obj = json.load(open(replay))
         rows = [obj["row"]]
+        rows[0].setdefault("ab", 0)
     else:
         # ---- (T) exhaustive enumeration inside the small bound + model theorems ----
         n_sim, par = (6000, 10) if thorough else (260, 4)
@@ -225,7 +255,7 @@ def run(ctx, replay):
 
         def mc(k):
             return view(ctx.seed).tlc("Routing", None, name="mc%d" % k, workers=4 if thorough else 3,
-                                      timeout=2400 if thorough else 300,
+                                      timeout=2400 if thorough else 900,
                                       cfg_text=gen_cfg(tail="INVARIANT TheoremsHold\n", **bounds[k]))
 
         def asis(dev):
@@ -239,7 +269,8 @@ def run(ctx, replay):
                 cfg_text=gen_cfg(tail="INVARIANT TheoremsHold\n",
                                  **dict(SIM, doms=SIM_DOMS[k % 3],
                                         envvars=ALL_VARS if k % 2 == 0 else NO_UPPER_ACE)))
-        with ThreadPoolExecutor(len(bounds) + len(open_devs) + par) as ex:
+        # at most 12 TLC JVMs side by side (the thorough tier has more bounds + walks than that)
+        with ThreadPoolExecutor(min(12, len(bounds) + len(open_devs) + par)) as ex:
             f_mc = [ex.submit(mc, k) for k in range(len(bounds))]
             f_as = [(d, ex.submit(asis, d)) for d in open_devs]
             f_sim = [ex.submit(sim, k) for k in range(par)]
@@ -288,6 +319,8 @@ def run(ctx, replay):
             rows.append(x)
     for i, x in enumerate(rows):
         x["id"] = i + 1
+        # alphabet of the row: consecutive rows (neighbouring configurations) use different alphabets
+        x.setdefault("ab", (i + ctx.seed) % N_ALPHABETS)
     if not rows:
         raise vlib.Infra("TLC produced no rows")
     ctx.log("%d rows to replay" % len(rows))
@@ -296,7 +329,7 @@ def run(ctx, replay):
     bt.join()
     if "err" in binary_box:
         raise binary_box["err"]
-    events = ctx.run_shards(binary_box["bin"], [{"id": x["id"], "cfg": x["cfg"], "envs": x["envs"]}
+    events = ctx.run_shards(binary_box["bin"], [{"id": x["id"], "ab": x["ab"], "cfg": x["cfg"], "envs": x["envs"]}
                                                 for x in rows])
     by_id = {x["id"]: x for x in rows}
     ev_by_t = {e["t"]: e for e in events}
@@ -368,7 +401,7 @@ def run(ctx, replay):
             for v in viol:
                 preds[v] = preds.get(v, 0) + 1
             what = "routing violates " + ",".join(viol) + (" (load reasons %s)" % sorted(rec["why"]) if rec["why"] else "")
-            ctx.violation(what, {"property": PID, "row": {"cfg": by_id[t]["cfg"], "envs": by_id[t]["envs"]},
+            ctx.violation(what, {"property": PID, "row": {"cfg": by_id[t]["cfg"], "envs": by_id[t]["envs"], "ab": by_id[t]["ab"]},
                                  "config_text": e["text"], "observed": e["out"], "violated": viol,
                                  "asis": rec["asis"], "devs": devs,
                                  "how": "bin/check C04 --replay <this file>"})
@@ -428,12 +461,17 @@ META = {
             "on each: selected block unique, loadable => decision for every envelope, operational rule satisfies the "
             "declarative property. Every row is loaded with the real msgpipeline.New and every envelope of the sweep is "
             "pushed through Start/AddRcpt/Body/Commit; TLC evaluates the C04 clauses on the recorded outcome.",
-    "note": "Exhaustive only inside small bounds (quick: six bounds - precedence with 1 source-family + 1 destination-family "
+    "note": "Exhaustive only inside small bounds (quick: eight bounds - precedence with 1 source-family + 1 destination-family "
             "block per level over a multi-label IDN, static and regexp tables; incomplete configurations with destination + "
             "destination_in and one defect; one rewrite map incl. local-part keys / domain-less values over two domains; two "
             "nested 1-to-2 rewrites over three addresses; every table module (static, file, regexp with/without replacement, "
-            "scripted table with a failing lookup); two modify directives in one scope; thorough: four more incl. two spellings, "
-            "two domains, defects inside a reroute); all envelopes of a row go through the same loaded pipeline in sequence "
+            "scripted table with a failing lookup, catch-all tables identity / regexp \".*\", source_in tables listing the null "
+            "reverse-path); two modify directives in one scope; rule lists: two source-family resp. destination-family blocks "
+            "with 1-2 rules each, a rule repeated inside or across directives in any position, competing with tables; "
+            "thorough: eight more incl. two spellings, two domains, defects inside a reroute, rule lists in two spellings, "
+            "default block not last); rows are spread over four concrete alphabets of the same shape (Latin-1, letters whose "
+            "capital has no precomposed form, Cyrillic with an IDN TLD, two combining marks in non-canonical order) and the "
+            "envelopes of a row alternate between Body and BodyNonAtomic (harness-only data dimensions); all envelopes of a row go through the same loaded pipeline in sequence "
             "(history independence of the routing is part of the rule); "
             "the full grammar is sampled by seeded TLC simulation (260 configurations quick, 6000 thorough). "
             "Trusted: TLC, harness, Go toolchain.",
